@@ -6,7 +6,7 @@
 From Coq Require Import ZArith List.
 From AGH Require Import Base.Run Base.Bytes Model.HashPrefix Proofs.HashPrefix Proofs.HashPrefixMatch
   Model.HashPrefixBytes Proofs.HashPrefixBytes Model.HashPrefixLRU Proofs.HashPrefixHist Proofs.HashPrefixLRU
-  Model.HashPrefixGlue Proofs.HashPrefixGlue.
+  Model.HashPrefixGlue Proofs.HashPrefixGlue Model.HashPrefixCollide Proofs.HashPrefixCollide.
 Import ListNotations.
 
 (** The question is the hex of the 2-byte prefixes, each followed by a dot,
@@ -541,12 +541,12 @@ Proof. exact lru_order_example. Qed.
 (** The test at the top of checkSafeBrowsing / checkParental does not look at
     the host: for every two hosts it gives the same answer, and that answer is
     "protection is on and the service is enabled for the request". *)
-Theorem C19_glue_no_host_short_cut : forall s st h1 h2, glue_calls s st h1 = glue_calls s st h2.
+Theorem C19_glue_no_host_short_cut : forall s st qt h1 h2, glue_calls s st qt h1 = glue_calls s st qt h2.
 Proof. exact glue_calls_host_independent. Qed.
 Print Assumptions C19_glue_no_host_short_cut.
 
-Theorem C19_glue_calls_exactly_switches : forall s st h,
-  glue_calls s st h = true <-> st_protection st = true /\ svc_enabled s st = true.
+Theorem C19_glue_calls_exactly_switches : forall s st qt h,
+  glue_calls s st qt h = true <-> st_protection st = true /\ svc_enabled s st = true.
 Proof. exact glue_calls_spec. Qed.
 Print Assumptions C19_glue_calls_exactly_switches.
 
@@ -554,8 +554,8 @@ Print Assumptions C19_glue_calls_exactly_switches.
     called exactly when the name is not the root query and protection and
     safe browsing are on, and it is called with the lower-case name. *)
 Theorem C19_glue_safebrowsing_sees : forall (C1 C2 : Type) (sb : bytes -> C1 -> C1 * check_out)
-    (pc : bytes -> C2 -> C2 * check_out) st spelled c1 c2,
-  match g_sb (snd (glue_check_host sb pc st spelled c1 c2)) with
+    (pc : bytes -> C2 -> C2 * check_out) st qt spelled c1 c2,
+  match g_sb (snd (glue_check_host sb pc st qt spelled c1 c2)) with
   | Some (h, o) =>
       spelled <> [] /\ st_protection st = true /\ st_safebrowsing st = true /\
       h = lower spelled /\ o = snd (sb (lower spelled) c1)
@@ -567,8 +567,8 @@ Print Assumptions C19_glue_safebrowsing_sees.
 (** The parental-control checker likewise, unless the safe-browsing checker
     failed or blocked (then it is not asked at all). *)
 Theorem C19_glue_parental_sees : forall (C1 C2 : Type) (sb : bytes -> C1 -> C1 * check_out)
-    (pc : bytes -> C2 -> C2 * check_out) st spelled c1 c2,
-  let out := snd (glue_check_host sb pc st spelled c1 c2) in
+    (pc : bytes -> C2 -> C2 * check_out) st qt spelled c1 c2,
+  let out := snd (glue_check_host sb pc st qt spelled c1 c2) in
   match g_pc out with
   | Some (h, o) =>
       spelled <> [] /\ st_protection st = true /\ st_parental st = true /\ h = lower spelled /\
@@ -618,10 +618,10 @@ Print Assumptions C19_nothing_enumerated_nothing_asked.
     parental database; otherwise not filtered; an error never blocks; the
     caches stay exact. *)
 Theorem C19_glue_blocks_iff_listed : forall sha pubsuf sfx1 sfx2 ct1 ct2 db1 db2 svc1 svc2
-    ord1 ord2 ev1 ev2 now1 now2 st spelled c1 c2,
+    ord1 ord2 ev1 ev2 now1 now2 st qt spelled c1 c2,
   cache_inv db1 c1 -> cache_inv db2 c2 -> svc_ok db1 svc1 -> svc_ok db2 svc2 ->
   let res := glue_check_host (check sha pubsuf sfx1 ct1 svc1 ord1 ev1 now1)
-                             (check sha pubsuf sfx2 ct2 svc2 ord2 ev2 now2) st spelled c1 c2 in
+                             (check sha pubsuf sfx2 ct2 svc2 ord2 ev2 now2) st qt spelled c1 c2 in
   cache_inv db1 (fst (fst res)) /\ cache_inv db2 (snd (fst res)) /\
   (g_err (snd res) = false ->
    g_reason (snd res) = glue_verdict (db_verdict sha pubsuf db1) (db_verdict sha pubsuf db2) st spelled) /\
@@ -642,21 +642,21 @@ Print Assumptions C19_glue_verdict_listed.
 
 (** With the service enabled for the request: blocked iff listed. *)
 Theorem C19_glue_safebrowsing_iff_listed : forall sha pubsuf sfx1 sfx2 ct1 ct2 db1 db2 svc1 svc2
-    ord1 ord2 ev1 ev2 now1 now2 st spelled c1 c2,
+    ord1 ord2 ev1 ev2 now1 now2 st qt spelled c1 c2,
   cache_inv db1 c1 -> cache_inv db2 c2 -> svc_ok db1 svc1 -> svc_ok db2 svc2 ->
   st_protection st = true -> st_safebrowsing st = true ->
   let out := snd (glue_check_host (check sha pubsuf sfx1 ct1 svc1 ord1 ev1 now1)
-                                  (check sha pubsuf sfx2 ct2 svc2 ord2 ev2 now2) st spelled c1 c2) in
+                                  (check sha pubsuf sfx2 ct2 svc2 ord2 ev2 now2) st qt spelled c1 c2) in
   g_err out = false -> (g_reason out = RSafeBrowsing <-> listed sha pubsuf db1 (lower spelled)).
 Proof. exact glue_safebrowsing_iff_listed. Qed.
 Print Assumptions C19_glue_safebrowsing_iff_listed.
 
 Theorem C19_glue_parental_iff_listed : forall sha pubsuf sfx1 sfx2 ct1 ct2 db1 db2 svc1 svc2
-    ord1 ord2 ev1 ev2 now1 now2 st spelled c1 c2,
+    ord1 ord2 ev1 ev2 now1 now2 st qt spelled c1 c2,
   cache_inv db1 c1 -> cache_inv db2 c2 -> svc_ok db1 svc1 -> svc_ok db2 svc2 ->
   st_protection st = true -> st_safebrowsing st = false -> st_parental st = true ->
   let out := snd (glue_check_host (check sha pubsuf sfx1 ct1 svc1 ord1 ev1 now1)
-                                  (check sha pubsuf sfx2 ct2 svc2 ord2 ev2 now2) st spelled c1 c2) in
+                                  (check sha pubsuf sfx2 ct2 svc2 ord2 ev2 now2) st qt spelled c1 c2) in
   g_err out = false -> (g_reason out = RParental <-> listed sha pubsuf db2 (lower spelled)).
 Proof. exact glue_parental_iff_listed. Qed.
 Print Assumptions C19_glue_parental_iff_listed.
@@ -665,13 +665,13 @@ Print Assumptions C19_glue_parental_iff_listed.
     is not of the ICANN section (the name may BE that suffix, or a single
     label) is blocked. *)
 Theorem C19_glue_listed_non_icann_name_blocks : forall sha pubsuf sfx1 sfx2 ct1 ct2 db1 db2 svc1 svc2
-    ord1 ord2 ev1 ev2 now1 now2 st spelled c1 c2,
+    ord1 ord2 ev1 ev2 now1 now2 st qt spelled c1 c2,
   cache_inv db1 c1 -> cache_inv db2 c2 -> svc_ok db1 svc1 -> svc_ok db2 svc2 ->
   st_protection st = true -> st_safebrowsing st = true ->
   spelled <> [] -> snd (pubsuf (lower spelled)) = false -> (count dot (lower spelled) < 4)%nat ->
   In (sha (lower spelled)) db1 ->
   let out := snd (glue_check_host (check sha pubsuf sfx1 ct1 svc1 ord1 ev1 now1)
-                                  (check sha pubsuf sfx2 ct2 svc2 ord2 ev2 now2) st spelled c1 c2) in
+                                  (check sha pubsuf sfx2 ct2 svc2 ord2 ev2 now2) st qt spelled c1 c2) in
   g_err out = false -> g_reason out = RSafeBrowsing.
 Proof. exact glue_listed_non_icann_name_blocks. Qed.
 Print Assumptions C19_glue_listed_non_icann_name_blocks.
@@ -683,10 +683,10 @@ Theorem C19_glue_history_blocks_iff_listed : forall sha pubsuf sfx1 sfx2 ct1 ct2
     ord1 ord2 ev1 ev2 now1 now2,
   svc_ok db1 svc1 -> svc_ok db2 svc2 ->
   forall reqs c1 c2, cache_inv db1 c1 -> cache_inv db2 c2 ->
-  Forall2 (fun (req : settings * bytes) out =>
+  Forall2 (fun (req : settings * qtype * bytes) out =>
              (g_err out = false ->
               g_reason out = glue_verdict (db_verdict sha pubsuf db1) (db_verdict sha pubsuf db2)
-                                          (fst req) (snd req)) /\
+                                          (fst (fst req)) (snd req)) /\
              (g_err out = true -> g_reason out = RNotFiltered))
           reqs (glue_run (check sha pubsuf sfx1 ct1 svc1 ord1 ev1 now1)
                          (check sha pubsuf sfx2 ct2 svc2 ord2 ev2 now2) reqs c1 c2).
@@ -699,8 +699,8 @@ Theorem C19_glue_any_transparent_checkers : forall (C1 C2 : Type) (inv1 : C1 -> 
     v1 v2 sb pc,
   checker_transparent inv1 v1 sb -> checker_transparent inv2 v2 pc -> v1 [] = false -> v2 [] = false ->
   forall reqs c1 c2, inv1 c1 -> inv2 c2 ->
-  Forall2 (fun (req : settings * bytes) out =>
-             (g_err out = false -> g_reason out = glue_verdict v1 v2 (fst req) (snd req)) /\
+  Forall2 (fun (req : settings * qtype * bytes) out =>
+             (g_err out = false -> g_reason out = glue_verdict v1 v2 (fst (fst req)) (snd req)) /\
              (g_err out = true -> g_reason out = RNotFiltered))
           reqs (glue_run sb pc reqs c1 c2).
 Proof. exact @glue_run_spec. Qed.
@@ -710,8 +710,8 @@ Print Assumptions C19_glue_any_transparent_checkers.
     of [Check] for the lower-case name: exactly the prefixes of its
     enumerated names that have no valid cache entry. *)
 Theorem C19_glue_safebrowsing_question_exact : forall (C2 : Type) sha pubsuf sfx ct svc ord ev now
-    (pc : bytes -> C2 -> C2 * check_out) st spelled c1 c2 h o q,
-  g_sb (snd (glue_check_host (check sha pubsuf sfx ct svc ord ev now) pc st spelled c1 c2)) = Some (h, o) ->
+    (pc : bytes -> C2 -> C2 * check_out) st qt spelled c1 c2 h o q,
+  g_sb (snd (glue_check_host (check sha pubsuf sfx ct svc ord ev now) pc st qt spelled c1 c2)) = Some (h, o) ->
   o_question o = Some q ->
   h = lower spelled /\
   unanswered sha pubsuf now c1 (lower spelled) <> [] /\
@@ -720,8 +720,8 @@ Proof. exact @glue_safebrowsing_question_exact. Qed.
 Print Assumptions C19_glue_safebrowsing_question_exact.
 
 Theorem C19_glue_parental_question_exact : forall (C1 : Type) sha pubsuf sfx ct svc ord ev now
-    (sb : bytes -> C1 -> C1 * check_out) st spelled c1 c2 h o q,
-  g_pc (snd (glue_check_host sb (check sha pubsuf sfx ct svc ord ev now) st spelled c1 c2)) = Some (h, o) ->
+    (sb : bytes -> C1 -> C1 * check_out) st qt spelled c1 c2 h o q,
+  g_pc (snd (glue_check_host sb (check sha pubsuf sfx ct svc ord ev now) st qt spelled c1 c2)) = Some (h, o) ->
   o_question o = Some q ->
   h = lower spelled /\
   unanswered sha pubsuf now c2 (lower spelled) <> [] /\
@@ -741,11 +741,11 @@ Example C19_glue_premises_satisfiable :
     = [GlueExamples.github_io; [105;111]%N] /\
   names_to_hash GlueExamples.pubsuf GlueExamples.intranet = [GlueExamples.intranet] /\
   names_to_hash GlueExamples.pubsuf GlueExamples.com = [] /\
-  g_reason (snd (glue_check_host GlueExamples.chk GlueExamples.chk GlueExamples.on
+  g_reason (snd (glue_check_host GlueExamples.chk GlueExamples.chk GlueExamples.on 1%N
                    GlueExamples.github_io [] [])) = RSafeBrowsing /\
-  g_reason (snd (glue_check_host GlueExamples.chk GlueExamples.chk GlueExamples.on
+  g_reason (snd (glue_check_host GlueExamples.chk GlueExamples.chk GlueExamples.on 1%N
                    GlueExamples.intranet [] [])) = RSafeBrowsing /\
-  g_reason (snd (glue_check_host GlueExamples.chk GlueExamples.chk GlueExamples.on
+  g_reason (snd (glue_check_host GlueExamples.chk GlueExamples.chk GlueExamples.on 1%N
                    GlueExamples.com [] [])) = RNotFiltered.
 Proof. exact glue_premises_satisfiable. Qed.
 
@@ -760,8 +760,185 @@ Theorem C19_glue_bare_suffix_shortcut_refuted :
     snd (pubsuf host) = false /\
     In host (names_to_hash pubsuf host) /\ In (sha host) db /\ Forall hash_wf db /\
     let chk := check sha pubsuf GlueExamples.sfx (3600 * ns_sec)%Z (db_service db) [] [] 0%Z in
-    g_reason (snd (glue_check_host chk chk st host [] [])) = RSafeBrowsing /\
-    g_reason (snd (glue_check_host_with (glue_calls_bare pubsuf) chk chk st host [] [])) = RNotFiltered /\
-    g_sb (snd (glue_check_host_with (glue_calls_bare pubsuf) chk chk st host [] [])) = None.
+    g_reason (snd (glue_check_host chk chk st 1%N host [] [])) = RSafeBrowsing /\
+    g_reason (snd (glue_check_host_with (glue_calls_bare pubsuf) chk chk st 1%N host [] [])) = RNotFiltered /\
+    g_sb (snd (glue_check_host_with (glue_calls_bare pubsuf) chk chk st 1%N host [] [])) = None.
 Proof. exact glue_bare_suffix_shortcut_refuted. Qed.
 Print Assumptions C19_glue_bare_suffix_shortcut_refuted.
+
+(** ** Round 6: the type of the question through the glue *)
+
+(** The test before the checkers looks neither at the host nor at the type of
+    the question (the [qtype] argument, an explicit argument of the model as
+    of the Go signatures). *)
+Theorem C19_glue_calls_ignore_qtype : forall s st q1 q2 h, glue_calls s st q1 h = glue_calls s st q2 h.
+Proof. exact glue_calls_qtype_independent. Qed.
+Print Assumptions C19_glue_calls_ignore_qtype.
+
+(** CheckHost as far as safe browsing and parental control go: for any two
+    checkers, any settings, any name and any two question types the result is
+    the same: the states of both checkers, what each was called with, what it
+    asked and answered, reason, error. *)
+Theorem C19_glue_ignores_qtype : forall (C1 C2 : Type) (sb : bytes -> C1 -> C1 * check_out)
+    (pc : bytes -> C2 -> C2 * check_out) st q1 q2 spelled c1 c2,
+  glue_check_host sb pc st q1 spelled c1 c2 = glue_check_host sb pc st q2 spelled c1 c2.
+Proof. exact @glue_check_host_ignores_qtype. Qed.
+Print Assumptions C19_glue_ignores_qtype.
+
+(** Over histories: two histories of requests that differ only in the
+    question types give the same results. *)
+Theorem C19_glue_history_ignores_qtype : forall (C1 C2 : Type) (sb : bytes -> C1 -> C1 * check_out)
+    (pc : bytes -> C2 -> C2 * check_out) reqs1 reqs2 c1 c2,
+  map drop_qtype reqs1 = map drop_qtype reqs2 ->
+  glue_run sb pc reqs1 c1 c2 = glue_run sb pc reqs2 c1 c2.
+Proof. exact @glue_run_ignores_qtype. Qed.
+Print Assumptions C19_glue_history_ignores_qtype.
+
+(** In the property's words: a name the safe-browsing service lists is
+    blocked for EVERY question type. *)
+Theorem C19_glue_listed_blocks_every_qtype : forall sha pubsuf sfx1 sfx2 ct1 ct2 db1 db2 svc1 svc2
+    ord1 ord2 ev1 ev2 now1 now2 st spelled c1 c2,
+  cache_inv db1 c1 -> cache_inv db2 c2 -> svc_ok db1 svc1 -> svc_ok db2 svc2 ->
+  st_protection st = true -> st_safebrowsing st = true -> listed sha pubsuf db1 (lower spelled) ->
+  forall qt : qtype,
+  let out := snd (glue_check_host (check sha pubsuf sfx1 ct1 svc1 ord1 ev1 now1)
+                                  (check sha pubsuf sfx2 ct2 svc2 ord2 ev2 now2) st qt spelled c1 c2) in
+  g_err out = false -> g_reason out = RSafeBrowsing.
+Proof. exact glue_listed_blocks_every_qtype. Qed.
+Print Assumptions C19_glue_listed_blocks_every_qtype.
+
+(** The variant "lookup only for address-like questions" (red-team change
+    C19-L: A, AAAA, HTTPS) is refuted: the listed name is blocked by the code
+    for a TXT question and by the variant for an A question, and for the TXT
+    question the variant never calls the checker. *)
+Theorem C19_glue_address_types_only_refuted :
+  exists sha pubsuf db st host (qt : qtype),
+    st_protection st = true /\ st_safebrowsing st = true /\
+    In host (names_to_hash pubsuf host) /\ In (sha host) db /\ Forall hash_wf db /\
+    is_block_host_qtype qt = false /\
+    let chk := check sha pubsuf GlueExamples.sfx (3600 * ns_sec)%Z (db_service db) [] [] 0%Z in
+    g_reason (snd (glue_check_host chk chk st qt host [] [])) = RSafeBrowsing /\
+    g_reason (snd (glue_check_host_with glue_calls_addr chk chk st 1%N host [] [])) = RSafeBrowsing /\
+    g_reason (snd (glue_check_host_with glue_calls_addr chk chk st qt host [] [])) = RNotFiltered /\
+    g_sb (snd (glue_check_host_with glue_calls_addr chk chk st qt host [] [])) = None.
+Proof. exact glue_address_types_only_refuted. Qed.
+Print Assumptions C19_glue_address_types_only_refuted.
+
+(** ** Round 6: enumerated names of one host with equal hash prefixes *)
+
+(** A [storeInCache] whose Sets are all kept leaves ONE entry under every
+    prefix of the answer, holding every returned hash with that prefix
+    (however many requested hashes share it). *)
+Theorem C19_store_one_entry_per_prefix : forall exp to_req resp order c p,
+  In p (map prefix_of resp) -> In p order ->
+  cget p (fst (store_in_cache exp to_req resp order [] c))
+  = Some {| c_expiry := exp; c_hashes := filter (fun h => eqb_bytes (prefix_of h) p) resp |}.
+Proof. exact store_in_cache_entry. Qed.
+Print Assumptions C19_store_one_entry_per_prefix.
+
+(** Two enumerated names [a], [b] of a host share the prefix and [b] is
+    listed.  Fresh lookup: the question has one label per enumerated name (the
+    shared prefix once for each), the verdict is blocked, the entry under the
+    shared prefix holds exactly the returned hashes with it (the database's,
+    the hash of [b] among them); and every later check on that cache says
+    blocked: the cached verdict is the fresh one. *)
+Theorem C19_verdict_with_colliding_prefixes : forall sha pubsuf suffix cache_time db svc order now host a b strs,
+  svc_ok db svc ->
+  In a (names_to_hash pubsuf host) -> In b (names_to_hash pubsuf host) ->
+  prefix_of (sha a) = prefix_of (sha b) ->
+  In (sha b) db ->
+  svc (map prefix_of (hostname_to_hashes sha pubsuf host)) = Some strs ->
+  In (prefix_of (sha b)) order ->
+  let res := check sha pubsuf suffix cache_time svc order [] now host [] in
+  o_question (snd res) = Some (question suffix (hostname_to_hashes sha pubsuf host)) /\
+  In (sha a) (hostname_to_hashes sha pubsuf host) /\ In (sha b) (hostname_to_hashes sha pubsuf host) /\
+  o_err (snd res) = false /\
+  o_blocked (snd res) = true /\
+  (exists it, cget (prefix_of (sha b)) (fst res) = Some it /\
+              c_hashes it = filter (fun h => eqb_bytes (prefix_of h) (prefix_of (sha a))) (parse_txt strs) /\
+              In (sha b) (c_hashes it) /\
+              (forall h, In h (c_hashes it) <-> In h db /\ prefix_of h = prefix_of (sha a))) /\
+  forall svc' order' evs' now',
+    svc_ok db svc' ->
+    o_err (snd (check sha pubsuf suffix cache_time svc' order' evs' now' host (fst res))) = false ->
+    o_blocked (snd (check sha pubsuf suffix cache_time svc' order' evs' now' host (fst res))) = true.
+Proof. exact verdict_with_colliding_prefixes. Qed.
+Print Assumptions C19_verdict_with_colliding_prefixes.
+
+(** The premises hold for a concrete name sharing its prefix with its parent;
+    the repeated check is answered from the one entry, without a question. *)
+Example C19_colliding_premises_satisfiable :
+  let db := [CollideExample.sha_all CollideExample.ex] in
+  names_to_hash CollideExample.pubsuf CollideExample.b_ex = [CollideExample.b_ex; CollideExample.ex] /\
+  prefix_of (CollideExample.sha_all CollideExample.b_ex) = prefix_of (CollideExample.sha_all CollideExample.ex) /\
+  CollideExample.sha_all CollideExample.b_ex <> CollideExample.sha_all CollideExample.ex /\
+  Forall hash_wf db /\ svc_ok db (db_service db) /\
+  let res := check CollideExample.sha_all CollideExample.pubsuf CollideExample.sfx CollideExample.ct
+               (db_service db) CollideExample.order [] 0%Z CollideExample.b_ex [] in
+  o_question (snd res) = Some ([48;48;48;48;46;48;48;48;48;46]%N ++ CollideExample.sfx) /\
+  o_blocked (snd res) = true /\
+  map (fun e : prefix * citem => (fst e, c_hashes (snd e))) (fst res)
+    = [([0; 0]%N, [CollideExample.sha_all CollideExample.ex])] /\
+  snd (check CollideExample.sha_all CollideExample.pubsuf CollideExample.sfx CollideExample.ct
+         (db_service db) CollideExample.order [] 0%Z CollideExample.b_ex (fst res))
+  = {| o_blocked := true; o_err := false; o_question := None; o_sets_left := 0 |}.
+Proof. exact colliding_premises_satisfiable. Qed.
+
+(** The code is the variant of [check_req_with] that leaves the list alone. *)
+Theorem C19_check_is_variant_id : forall sha pubsuf suffix cache_time svc order evs now host c,
+  check_req_with sha pubsuf suffix cache_time (fun hs => hs) svc order evs now host c
+  = check sha pubsuf suffix cache_time svc order evs now host c.
+Proof. exact check_req_with_id. Qed.
+Print Assumptions C19_check_is_variant_id.
+
+(** De-duplicating the request list by prefix before it is matched against
+    (red-team change C19-K, slices.CompactFunc) is refuted: a name sharing
+    its prefix with its listed parent is not blocked on the fresh lookup
+    although the service returned the parent's hash, and is blocked from the
+    cache on the next check. *)
+Theorem C19_compact_request_list_refuted :
+  exists sha pubsuf db host a b,
+    names_to_hash pubsuf host = [a; b] /\ prefix_of (sha a) = prefix_of (sha b) /\
+    In (sha b) db /\ Forall hash_wf db /\
+    let code := check sha pubsuf CollideExample.sfx CollideExample.ct (db_service db) CollideExample.order [] 0%Z host in
+    let variant := check_req_with sha pubsuf CollideExample.sfx CollideExample.ct compact_prefix
+                     (db_service db) CollideExample.order [] 0%Z host in
+    o_blocked (snd (code [])) = true /\
+    o_blocked (snd (code (fst (code [])))) = true /\
+    o_err (snd (variant [])) = false /\
+    In (sha b) (parse_txt (match db_service db [prefix_of (sha a)] with Some s => s | None => [] end)) /\
+    o_blocked (snd (variant [])) = false /\
+    snd (variant (fst (variant [])))
+    = {| o_blocked := true; o_err := false; o_question := None; o_sets_left := 0 |}.
+Proof. exact compact_request_list_refuted. Qed.
+Print Assumptions C19_compact_request_list_refuted.
+
+(** ... and so is one hash per prefix wherever the equal prefixes stand (name
+    and grandparent; CompactFunc leaves that list alone). *)
+Theorem C19_dedup_request_list_refuted :
+  exists sha pubsuf db host a m b,
+    names_to_hash pubsuf host = [a; m; b] /\ prefix_of (sha a) = prefix_of (sha b) /\
+    prefix_of (sha a) <> prefix_of (sha m) /\
+    In (sha b) db /\ Forall hash_wf db /\
+    let code := check sha pubsuf CollideExample.sfx CollideExample.ct (db_service db) CollideExample.order [] 0%Z host in
+    let compacted := check_req_with sha pubsuf CollideExample.sfx CollideExample.ct compact_prefix
+                       (db_service db) CollideExample.order [] 0%Z host in
+    let variant := check_req_with sha pubsuf CollideExample.sfx CollideExample.ct dedup_prefix
+                     (db_service db) CollideExample.order [] 0%Z host in
+    o_blocked (snd (code [])) = true /\
+    o_blocked (snd (code (fst (code [])))) = true /\
+    compacted [] = code [] /\
+    o_err (snd (variant [])) = false /\
+    o_blocked (snd (variant [])) = false /\
+    snd (variant (fst (variant [])))
+    = {| o_blocked := true; o_err := false; o_question := None; o_sets_left := 0 |}.
+Proof. exact dedup_request_list_refuted. Qed.
+Print Assumptions C19_dedup_request_list_refuted.
+
+(** Asking every prefix once would not change the answer of the service: the
+    repetition of a label in the question is not needed for the verdict (and
+    reveals nothing but a prefix already in the question). *)
+Theorem C19_question_once_same_answer : forall db hs,
+  db_service db (map prefix_of (dedup_prefix hs)) = db_service db (map prefix_of hs).
+Proof. exact question_once_same_answer. Qed.
+Print Assumptions C19_question_once_same_answer.
